@@ -67,6 +67,13 @@ pub(crate) fn now_millis_str() -> String {
     }
 }
 
+/// File names order WAL files for recovery. Make sure names handed out from now on sort after
+/// an already existing file, whatever the wall clock says (it may have moved backwards since
+/// that file was created).
+pub(crate) fn note_existing_file_millis(ms: u64) {
+    LAST_MILLIS.fetch_max(ms, Ordering::AcqRel);
+}
+
 pub(crate) fn checksum64(data: &[u8]) -> u64 {
     // FNV-1a 64-bit checksum
     const FNV_OFFSET: u64 = 0xcbf29ce484222325;
